@@ -1,8 +1,10 @@
 package retriever
 
 import (
+	"encoding/json"
 	"fmt"
 	"sort"
+	"strconv"
 	"time"
 
 	"github.com/specterops/dawgs/graph"
@@ -104,6 +106,48 @@ type FragmentEdge struct {
 	EndID      string         `json:"end_id"`
 	Kind       string         `json:"kind"`
 	Properties map[string]any `json:"properties,omitempty"`
+}
+
+func (s *FragmentNode) normalizeJSONNumbers() {
+	normalizeJSONNumberMap(s.Properties)
+}
+
+func (s *FragmentEdge) normalizeJSONNumbers() {
+	normalizeJSONNumberMap(s.Properties)
+}
+
+func normalizeJSONNumberMap(values map[string]any) {
+	for key, value := range values {
+		values[key] = normalizeJSONNumberValue(value)
+	}
+}
+
+// normalizeJSONNumberValue replaces json.Number values, recursively, with the narrowest exact Go
+// number: int64 or uint64 for integer literals that fit, float64 otherwise.
+func normalizeJSONNumberValue(value any) any {
+	switch typed := value.(type) {
+	case json.Number:
+		if integer, err := strconv.ParseInt(typed.String(), 10, 64); err == nil {
+			return integer
+		}
+		if unsigned, err := strconv.ParseUint(typed.String(), 10, 64); err == nil {
+			return unsigned
+		}
+		if float, err := typed.Float64(); err == nil {
+			return float
+		}
+		return typed.String()
+	case map[string]any:
+		normalizeJSONNumberMap(typed)
+		return typed
+	case []any:
+		for index, item := range typed {
+			typed[index] = normalizeJSONNumberValue(item)
+		}
+		return typed
+	default:
+		return value
+	}
 }
 
 func newManifest(driverName string, codec CompressionCodec, compressionLevel int, scrub ScrubMetadata, graphCount int) Manifest {
